@@ -2,9 +2,13 @@
    ExtrOcamlBasic only (bool, option, unit, list, prod, sumbool, ... as OCaml's own);
    N, Z, positive, nat and byte stay Coq datatypes.  No Extract Constant. *)
 From Coq Require Import extraction.Extraction extraction.ExtrOcamlBasic.
-From IKE Require Import Lib.Base Prim.Hmac Spec.PrfPlus Impl.EapAkaPrf.
+From IKE Require Import Lib.Base Prim.Hmac Spec.PrfPlus Impl.EapAkaPrf Impl.Msg Impl.Eap Impl.Payloads Impl.Message.
 Extraction Language OCaml.
 Extraction "model.ml"
   b2n n2b be_val nat_of N.of_nat
   hmac stream prf_plus slice
-  eap_aka_prime_prf.
+  eap_aka_prime_prf
+  aka_set_attr aka_get aka_sort aka_marshal aka_unmarshal expanded_unmarshal simple_unmarshal
+  eapdata_marshal eap_marshal eap_unmarshal
+  payload_marshal payload_unmarshal sa_unmarshal ts_unmarshal
+  container_encode decode_payloads header_marshal parse_header encode decode ptype.
